@@ -33,6 +33,11 @@ pub enum Ty {
     Text,
     /// DOUBLE: stored, compared and shown, never computed with
     Double,
+    /// UINT (32 bits), BIGUINT (64 bits)
+    UInt,
+    BigUInt,
+    /// FLOAT: like DOUBLE
+    Float,
 }
 
 #[derive(Clone, Debug)]
@@ -62,9 +67,14 @@ pub enum E {
     StrFn(&'static str, Box<E>),
     /// `a || b`
     Concat(Box<E>, Box<E>),
+    /// NULLIF(a, b)
+    NullIf(Box<E>, Box<E>),
+    /// COALESCE(x1, …, xn)
+    Coalesce(Vec<E>),
 }
 
-pub const STR_FNS: [&str; 5] = ["upper", "lower", "length", "ltrim", "rtrim"];
+/// functions of one argument: the string functions, then ABS / CEIL / FLOOR / ROUND (DOUBLE results)
+pub const STR_FNS: [&str; 9] = ["upper", "lower", "length", "ltrim", "rtrim", "abs", "ceil", "floor", "round"];
 
 #[derive(Clone, Debug)]
 pub enum From {
@@ -151,6 +161,9 @@ fn ty_char(t: Ty) -> char {
         Ty::Bool => 'O',
         Ty::Text => 'S',
         Ty::Double => 'D',
+        Ty::UInt => 'U',
+        Ty::BigUInt => 'W',
+        Ty::Float => 'F',
     }
 }
 
@@ -181,6 +194,9 @@ fn parse_db(w: &str) -> Option<Vec<Table>> {
                 'O' => Some(Ty::Bool),
                 'S' => Some(Ty::Text),
                 'D' => Some(Ty::Double),
+                'U' => Some(Ty::UInt),
+                'W' => Some(Ty::BigUInt),
+                'F' => Some(Ty::Float),
                 _ => None,
             })
             .collect();
@@ -193,7 +209,7 @@ fn parse_db(w: &str) -> Option<Vec<Table>> {
                 // a double lives in a DOUBLE column and nothing else does
                 if vs.len() != tys.len()
                     || vs.iter().zip(&tys).any(|(v, t)| {
-                        matches!(v, Val::F64(_)) != (*t == Ty::Double) && *v != Val::Null
+                        matches!(v, Val::F64(_)) != matches!(t, Ty::Double | Ty::Float) && *v != Val::Null
                     })
                 {
                     return None;
@@ -254,6 +270,17 @@ pub fn show_expr(e: &E, out: &mut Vec<String>) {
             out.push("cat".into());
             show_expr(a, out);
             show_expr(b, out)
+        }
+        E::NullIf(a, b) => {
+            out.push("nullif".into());
+            show_expr(a, out);
+            show_expr(b, out)
+        }
+        E::Coalesce(xs) => {
+            out.push(format!("coal{}", xs.len()));
+            for x in xs {
+                show_expr(x, out);
+            }
         }
         E::Between(neg, a, b, c) => {
             out.push(if *neg { "nbtw" } else { "btw" }.into());
@@ -468,7 +495,12 @@ fn p_expr(t: &mut Toks) -> Option<E> {
             Some(E::Like(w == "nlike", Box::new(a), Box::new(b)))
         }
         "isnull" | "notnull" => Some(E::IsNull(w == "notnull", Box::new(p_expr(t)?))),
-        "upper" | "lower" | "length" | "ltrim" | "rtrim" => {
+        "nullif" => {
+            let a = p_expr(t)?;
+            let b = p_expr(t)?;
+            Some(E::NullIf(Box::new(a), Box::new(b)))
+        }
+        "upper" | "lower" | "length" | "ltrim" | "rtrim" | "abs" | "ceil" | "floor" | "round" => {
             let f = STR_FNS.iter().find(|x| **x == w)?;
             Some(E::StrFn(f, Box::new(p_expr(t)?)))
         }
@@ -482,6 +514,14 @@ fn p_expr(t: &mut Toks) -> Option<E> {
             let b = p_expr(t)?;
             let c = p_expr(t)?;
             Some(E::Between(w == "nbtw", Box::new(a), Box::new(b), Box::new(c)))
+        }
+        _ if num_after("coal", w).is_some() => {
+            let k = num_after("coal", w)?;
+            let mut xs = Vec::new();
+            for _ in 0..k {
+                xs.push(p_expr(t)?);
+            }
+            Some(E::Coalesce(xs))
         }
         _ if num_after("casex", w).is_some() || num_after("case", w).is_some() => {
             let (simple, k) = match num_after("casex", w) {
@@ -684,7 +724,7 @@ fn level(e: &E) -> u8 {
         // a negative literal is written with a leading minus sign: it is a unary expression for the printer
         E::Lit(Val::Int(i)) if *i < 0 => 7,
         E::Lit(Val::F64(b)) if f64::from_bits(*b).is_sign_negative() => 7,
-        E::Lit(..) | E::Col(..) | E::Case(..) | E::StrFn(..) => 8,
+        E::Lit(..) | E::Col(..) | E::Case(..) | E::StrFn(..) | E::NullIf(..) | E::Coalesce(..) => 8,
         // `||` binds like + and -
         E::Concat(..) => 5,
     }
@@ -726,6 +766,8 @@ pub fn sql_expr(e: &E, min: u8, col: &dyn Fn(usize) -> String) -> String {
         E::IsNull(neg, a) => format!("{} IS {}NULL", sql_expr(a, 5, col), if *neg { "NOT " } else { "" }),
         E::StrFn(f, a) => format!("{}({})", f.to_uppercase(), sql_expr(a, 1, col)),
         E::Concat(a, b) => format!("{} || {}", sql_expr(a, 5, col), sql_expr(b, 6, col)),
+        E::NullIf(a, b) => format!("NULLIF({}, {})", sql_expr(a, 1, col), sql_expr(b, 1, col)),
+        E::Coalesce(xs) => format!("COALESCE({})", xs.iter().map(|x| sql_expr(x, 1, col)).collect::<Vec<_>>().join(", ")),
         E::Between(neg, a, lo, hi) => format!(
             "{} {}BETWEEN {} AND {}",
             sql_expr(a, 5, col),
@@ -776,6 +818,9 @@ fn sql_ty(t: Ty) -> &'static str {
         Ty::Bool => "BOOLEAN",
         Ty::Text => "TEXT",
         Ty::Double => "DOUBLE",
+        Ty::UInt => "UINT",
+        Ty::BigUInt => "BIGUINT",
+        Ty::Float => "FLOAT",
     }
 }
 
@@ -819,10 +864,13 @@ pub fn expr_ty(e: &E, tys: &[Ty]) -> Option<Ty> {
         E::Col(i) => Some(tys.get(*i).copied().unwrap_or(Ty::BigInt)),
         E::Neg(a) | E::Pos(a) => expr_ty(a, tys),
         E::StrFn("length", _) => Some(Ty::Int),
+        E::StrFn("abs" | "ceil" | "floor" | "round", _) => Some(Ty::Double),
         E::StrFn(..) | E::Concat(..) => Some(Ty::Text),
+        E::NullIf(a, _) => expr_ty(a, tys),
+        E::Coalesce(xs) => xs.iter().find_map(|x| expr_ty(x, tys)),
         E::Arith(_, a, b) => match (expr_ty(a, tys), expr_ty(b, tys)) {
             (None, None) => None,
-            (ta, tb) => Some(wider(ta.unwrap_or(Ty::Bool), tb.unwrap_or(Ty::Bool))),
+            (ta, tb) => Some(wider(ta.or(tb).unwrap_or(Ty::Bool), tb.or(ta).unwrap_or(Ty::Bool))),
         },
         E::Case(_, arms, els) => {
             let mut t: Option<Ty> = None;
@@ -1437,6 +1485,8 @@ struct Gen<'a> {
     no_case: bool,
     /// no INSERT/UPDATE/DELETE has been generated in this case yet: the tables still hold their initial rows
     pristine: bool,
+    /// no unsigned columns below a unary minus (there is no unary minus on UINT / BIGUINT: a type error)
+    no_unsigned: bool,
 }
 
 #[derive(Clone, Copy, PartialEq)]
@@ -1447,10 +1497,19 @@ enum Profile {
     Dups,
     Text,
     Nulls,
+    /// BIGINT / BIGUINT values beyond 32 bits (2^31 … 2^35), INT values small: 64-bit arithmetic away from its limits
+    Wide,
 }
 
-const WORDS: [&str; 17] =
-    ["", "a", "ab", "abc", "b", "ba", "B", "x", "xy", "a%", "a_c", "zz", " a", "b  ", "  ", " Ab ", "\tq\t "];
+/// arithmetic on the values of these populations can overflow: in safe mode integer expressions are leaves
+fn big_values(p: Profile) -> bool {
+    matches!(p, Profile::Boundary | Profile::Wide)
+}
+
+/// (the last three hold characters of several bytes that UPPER / LOWER leave alone: LENGTH counts characters)
+const WORDS: [&str; 20] = [
+    "", "a", "ab", "abc", "b", "ba", "B", "x", "xy", "a%", "a_c", "zz", " a", "b  ", "  ", " Ab ", "\tq\t ", "€", "a€b", "中文x",
+];
 const PATTERNS: [&str; 14] = ["%", "a%", "%b", "%b%", "_", "a_", "_b%", "abc", "", "%%", "a_c", "__", "x%y", "%a%b%"];
 
 impl<'a> Gen<'a> {
@@ -1464,6 +1523,11 @@ impl<'a> Gen<'a> {
             Profile::Boundary => {
                 if ty == Ty::Int {
                     *r.pick(&[I32_MIN, I32_MAX, I32_MIN + 1, I32_MAX - 1, 0, -1, 1, 65536, -65536, 46341])
+                } else if ty == Ty::UInt {
+                    *r.pick(&[0, 1, 2, 4294967295, 4294967294, 2147483648, 2147483647, 65536, 65535])
+                } else if ty == Ty::BigUInt {
+                    // (literals above 2^63 cannot be written: numbers are lexed as f64 and cast to a signed integer)
+                    *r.pick(&[0, 1, 2, 4294967295, 4294967296, 1 << 53, 1 << 62, 3037000500, 9223372036854775807])
                 } else {
                     *r.pick(&[
                         I64_MIN,
@@ -1482,11 +1546,16 @@ impl<'a> Gen<'a> {
                 }
             }
             Profile::Dups => r.range(0, 2) as i128,
+            Profile::Wide if ty == Ty::BigInt || ty == Ty::BigUInt => {
+                let m = (1i128 << 31) + r.below(1 << 35) as i128;
+                if ty == Ty::BigInt && r.chance(1, 2) { -m } else { m }
+            }
             _ => {
+                let unsigned = ty == Ty::UInt || ty == Ty::BigUInt;
                 if r.chance(1, 8) {
-                    r.range(-1000, 1000) as i128
+                    r.range(if unsigned { 0 } else { -1000 }, 1000) as i128
                 } else {
-                    r.range(-4, 9) as i128
+                    r.range(if unsigned { 0 } else { -4 }, 9) as i128
                 }
             }
         }
@@ -1502,7 +1571,7 @@ impl<'a> Gen<'a> {
             return Val::Null;
         }
         match ty {
-            Ty::Int | Ty::BigInt => Val::Int(self.int_val(ty, p)),
+            Ty::Int | Ty::BigInt | Ty::UInt | Ty::BigUInt => Val::Int(self.int_val(ty, p)),
             Ty::Bool => Val::Bool(self.rng.chance(1, 2)),
             Ty::Text => {
                 if p != Profile::Dups && self.rng.chance(1, 4) {
@@ -1512,8 +1581,8 @@ impl<'a> Gen<'a> {
                 let n = if p == Profile::Dups { 3 } else { WORDS.len() };
                 Val::Text(WORDS[self.rng.below(n as u64) as usize].as_bytes().to_vec())
             }
-            // eighths: exactly representable, printed exactly in decimal notation
-            Ty::Double => {
+            // eighths: exactly representable (also as f32), printed exactly in decimal notation
+            Ty::Double | Ty::Float => {
                 let k = match p {
                     Profile::Dups => self.rng.range(3, 6),
                     _ => {
@@ -1531,8 +1600,12 @@ impl<'a> Gen<'a> {
         for _ in 1..ncols {
             let t = match p {
                 Profile::Text => *self.rng.pick(&[Ty::Text, Ty::Text, Ty::Int]),
-                Profile::Boundary => *self.rng.pick(&[Ty::Int, Ty::BigInt, Ty::BigInt]),
-                _ => *self.rng.pick(&[Ty::Int, Ty::Int, Ty::Int, Ty::BigInt, Ty::BigInt, Ty::Text, Ty::Text, Ty::Bool, Ty::Bool, Ty::Double]),
+                Profile::Boundary => *self.rng.pick(&[Ty::Int, Ty::BigInt, Ty::BigInt, Ty::UInt, Ty::BigUInt]),
+                Profile::Wide => *self.rng.pick(&[Ty::Int, Ty::BigInt, Ty::BigInt, Ty::BigUInt, Ty::UInt]),
+                _ => *self.rng.pick(&[
+                    Ty::Int, Ty::Int, Ty::Int, Ty::BigInt, Ty::BigInt, Ty::Text, Ty::Text, Ty::Bool, Ty::Bool, Ty::Double, Ty::UInt,
+                    Ty::UInt, Ty::BigUInt, Ty::Float,
+                ]),
             };
             tys.push(t);
         }
@@ -1574,13 +1647,21 @@ impl<'a> Gen<'a> {
 
     fn int_expr(&mut self, tys: &[Ty], p: Profile, depth: u32) -> E {
         let cols = self.cols_of(tys, &[Ty::Int, Ty::BigInt]);
+        // (wide values: sums and differences of a few of them stay far inside 64 bits, products do not)
         let leaf = depth == 0 || self.rng.chance(1, 2) || (self.safe_arith && p == Profile::Boundary);
         if leaf {
             if !self.cols_of(tys, &[Ty::Text]).is_empty() && self.rng.chance(1, 8) {
                 self.tag("strfn.length");
                 let saved = self.no_case;
                 self.no_case = true;
-                let t = self.text_expr(tys, p);
+                let t = if self.rng.chance(1, 4) {
+                    self.tag("strfn.length.multibyte-literal");
+                    let mut s = like_subject(self.rng);
+                    s.extend("€".as_bytes());
+                    E::Lit(Val::Text(s))
+                } else {
+                    self.text_expr(tys, p)
+                };
                 self.no_case = saved;
                 return E::StrFn("length", Box::new(t));
             }
@@ -1593,13 +1674,20 @@ impl<'a> Gen<'a> {
         if !self.no_case && self.rng.chance(1, 9) {
             return self.case_expr(tys, p, 'i', depth - 1);
         }
+        if !self.no_unsigned && !self.cols_of(tys, &[Ty::UInt, Ty::BigUInt]).is_empty() && self.rng.chance(1, 3) {
+            return self.mixed_arith(tys, p);
+        }
+        if self.rng.chance(1, 8) {
+            return self.int_fn_expr(tys, p);
+        }
         match self.rng.below(8) {
             0 => {
                 self.tag("op.neg");
-                let saved = self.no_case;
+                let saved = (self.no_case, self.no_unsigned);
                 self.no_case = true;
+                self.no_unsigned = true;
                 let e = self.int_expr(tys, p, depth - 1);
-                self.no_case = saved;
+                (self.no_case, self.no_unsigned) = saved;
                 E::Neg(Box::new(e))
             }
             1 => {
@@ -1608,6 +1696,7 @@ impl<'a> Gen<'a> {
             }
             k => {
                 let op = ["add", "sub", "mul", "div", "mod", "add"][(k - 2) as usize];
+                let op = if self.safe_arith && p == Profile::Wide && op == "mul" { "sub" } else { op };
                 self.tag(&format!("op.{}", op));
                 let sub = if self.safe_arith && op == "mul" { 0 } else { depth - 1 };
                 let a = self.int_expr(tys, p, sub);
@@ -1622,6 +1711,99 @@ impl<'a> Gen<'a> {
                 E::Arith(op, Box::new(a), Box::new(b))
             }
         }
+    }
+
+    /// Arithmetic that involves an unsigned column: unsigned (op) unsigned is BIGUINT, every other pair BIGINT; a signed
+    /// minus an unsigned operand gives negative results.  In safe mode the combinations that can fail are left out:
+    /// unsigned - unsigned (a negative result is an overflow), unary minus on an unsigned value (a type error), and any
+    /// arithmetic on boundary values.
+    fn mixed_arith(&mut self, tys: &[Ty], p: Profile) -> E {
+        let ucols = self.cols_of(tys, &[Ty::UInt, Ty::BigUInt]);
+        let scols = self.cols_of(tys, &[Ty::Int, Ty::BigInt]);
+        let u = E::Col(*self.rng.pick(&ucols));
+        if self.safe_arith && big_values(p) {
+            self.tag("arith.unsigned.col");
+            return u;
+        }
+        // the other operand: (expression, is it of an unsigned kind)
+        let other = |g: &mut Self| -> (E, bool) {
+            match g.rng.below(4) {
+                0 => (E::Col(*g.rng.pick(&ucols)), true),
+                1 if !scols.is_empty() => (E::Col(*g.rng.pick(&scols)), false),
+                2 => (E::Arith("add", Box::new(E::Col(*g.rng.pick(&ucols))), Box::new(E::Col(*g.rng.pick(&ucols)))), true),
+                _ => (E::Lit(Val::Int(g.rng.range(0, 12) as i128)), false),
+            }
+        };
+        let (o, o_unsigned) = other(self);
+        if !self.safe_arith && self.rng.chance(1, 10) {
+            self.tag("arith.unsigned.neg");
+            self.tag("arith.may-fail");
+            return E::Neg(Box::new(u));
+        }
+        let op = *self.rng.pick(&["add", "sub", "sub", "mul", "div", "mod"]);
+        let u_first = self.rng.chance(1, 2);
+        let fails = o_unsigned && op == "sub" || op == "div" || op == "mod";
+        if self.safe_arith && fails {
+            // signed - unsigned instead: negative results, no error
+            self.tag("arith.mixed.sub");
+            let lit = E::Lit(Val::Int(self.rng.range(-3, 9) as i128));
+            return E::Arith("sub", Box::new(lit), Box::new(u));
+        }
+        self.tag(if o_unsigned { "arith.unsigned" } else { "arith.mixed" });
+        self.tag(&format!("{}.{}", if o_unsigned { "arith.unsigned" } else { "arith.mixed" }, op));
+        if !self.safe_arith {
+            self.tag("arith.may-fail");
+        }
+        if u_first { E::Arith(op, Box::new(u), Box::new(o)) } else { E::Arith(op, Box::new(o), Box::new(u)) }
+    }
+
+    /// COALESCE / NULLIF with integer arguments.  In safe mode the arguments are columns of one type (the result is cast
+    /// to the type of the first typed argument), small literals and NULLs.
+    fn int_fn_expr(&mut self, tys: &[Ty], p: Profile) -> E {
+        let all: Vec<Ty> =
+            if self.no_unsigned { vec![Ty::Int, Ty::BigInt] } else { vec![Ty::Int, Ty::BigInt, Ty::UInt, Ty::BigUInt] };
+        let ty = *self.rng.pick(&all);
+        let cols = if self.safe_arith { self.cols_of(tys, &[ty]) } else { self.cols_of(tys, &all) };
+        let arg = |g: &mut Self| -> E {
+            match g.rng.below(6) {
+                0 => E::Lit(Val::Null),
+                1 if !(g.safe_arith && big_values(p)) => E::Lit(Val::Int(g.rng.range(0, 9) as i128)),
+                2 if !g.safe_arith => g.int_expr(tys, p, 0),
+                _ if !cols.is_empty() => E::Col(*g.rng.pick(&cols)),
+                _ => E::Lit(Val::Null),
+            }
+        };
+        if self.rng.chance(1, 3) {
+            self.tag("fn.nullif");
+            let a = arg(self);
+            let b = arg(self);
+            E::NullIf(Box::new(a), Box::new(b))
+        } else {
+            let n = 1 + self.rng.below(4) as usize;
+            self.tag(&format!("fn.coalesce.{}", n));
+            E::Coalesce((0..n).map(|_| arg(self)).collect())
+        }
+    }
+
+    /// ABS / CEIL / FLOOR / ROUND: DOUBLE results (compared with decimal literals and DOUBLE columns, shown, sorted)
+    fn num_fn_expr(&mut self, tys: &[Ty], p: Profile) -> E {
+        let f = *self.rng.pick(&["abs", "abs", "ceil", "floor", "round"]);
+        let dcols = self.cols_of(tys, &[Ty::Double, Ty::Float]);
+        let arg = if !dcols.is_empty() && self.rng.chance(1, 2) {
+            self.tag(&format!("fn.{}.double", f));
+            E::Col(*self.rng.pick(&dcols))
+        } else if self.rng.chance(1, 4) {
+            self.tag(&format!("fn.{}.double", f));
+            self.lit(Ty::Double, p)
+        } else {
+            self.tag(&format!("fn.{}.int", f));
+            let saved = self.no_case;
+            self.no_case = true;
+            let e = self.int_expr(tys, p, 1);
+            self.no_case = saved;
+            e
+        };
+        E::StrFn(f, Box::new(arg))
     }
 
     /// CASE with results of kind `k` ('i' integer, 't' text, 'b' boolean): searched, simple, or the guarded division
@@ -1642,7 +1824,7 @@ impl<'a> Gen<'a> {
             }
         };
         let icols = self.cols_of(tys, &[Ty::Int, Ty::BigInt]);
-        let e = if k == 'i' && p != Profile::Boundary && !icols.is_empty() && self.rng.chance(1, 4) {
+        let e = if k == 'i' && !big_values(p) && !icols.is_empty() && self.rng.chance(1, 4) {
             // CASE WHEN c = 0 THEN r ELSE a / c END never divides by zero: only the chosen branch is evaluated
             self.tag("case.guarded-div");
             let c = *self.rng.pick(&icols);
@@ -1691,6 +1873,20 @@ impl<'a> Gen<'a> {
         if self.rng.chance(1, 5) {
             return self.str_fn_expr(tys, p);
         }
+        if self.rng.chance(1, 10) {
+            // COALESCE / NULLIF over texts
+            let arg = |g: &mut Self| if g.rng.chance(1, 4) { E::Lit(Val::Null) } else { g.text_atom(tys, p) };
+            return if self.rng.chance(1, 3) {
+                self.tag("fn.nullif.text");
+                let a = arg(self);
+                let b = arg(self);
+                E::NullIf(Box::new(a), Box::new(b))
+            } else {
+                let n = 1 + self.rng.below(3) as usize;
+                self.tag(&format!("fn.coalesce.text.{}", n));
+                E::Coalesce((0..n).map(|_| arg(self)).collect())
+            };
+        }
         self.text_atom(tys, p)
     }
 
@@ -1733,7 +1929,7 @@ impl<'a> Gen<'a> {
 
     /// a DOUBLE column or a decimal literal
     fn dbl_operand(&mut self, tys: &[Ty], p: Profile) -> E {
-        let dcols = self.cols_of(tys, &[Ty::Double]);
+        let dcols = self.cols_of(tys, &[Ty::Double, Ty::Float]);
         if !dcols.is_empty() && self.rng.chance(1, 3) { E::Col(*self.rng.pick(&dcols)) } else { self.lit(Ty::Double, p) }
     }
 
@@ -1742,8 +1938,12 @@ impl<'a> Gen<'a> {
         let has_text = !self.cols_of(tys, &[Ty::Text]).is_empty();
         let has_bool = !self.cols_of(tys, &[Ty::Bool]).is_empty();
         let k = self.rng.below(10);
-        let dcols = self.cols_of(tys, &[Ty::Double]);
-        if !dcols.is_empty() && self.rng.chance(1, 4) {
+        let dcols = self.cols_of(tys, &[Ty::Double, Ty::Float]);
+        if self.rng.chance(1, 12) {
+            // a numeric function (DOUBLE result) against a decimal literal or a DOUBLE column
+            let a = self.num_fn_expr(tys, p);
+            (a, self.dbl_operand(tys, p), "dbl")
+        } else if !dcols.is_empty() && self.rng.chance(1, 4) {
             // DOUBLE values are only compared, with each other and with decimal literals
             let a = E::Col(*self.rng.pick(&dcols));
             (a, self.dbl_operand(tys, p), "dbl")
@@ -1791,7 +1991,7 @@ impl<'a> Gen<'a> {
     fn cross_type_cmp(&mut self, tys: &[Ty]) -> E {
         let c = self.rng.below(tys.len() as u64) as usize;
         let lit = match tys[c] {
-            Ty::Int | Ty::BigInt | Ty::Double => {
+            Ty::Int | Ty::BigInt | Ty::Double | Ty::UInt | Ty::BigUInt | Ty::Float => {
                 if self.rng.chance(1, 2) { Val::Text(b"x".to_vec()) } else { Val::Bool(true) }
             }
             Ty::Text => {
@@ -1842,7 +2042,7 @@ impl<'a> Gen<'a> {
             5 => {
                 let neg = self.rng.chance(1, 2);
                 self.tag(if neg { "op.notnull" } else { "op.isnull" });
-                let dcols = self.cols_of(tys, &[Ty::Double]);
+                let dcols = self.cols_of(tys, &[Ty::Double, Ty::Float]);
                 let e = match self.rng.below(3) {
                     0 => self.text_expr(tys, p),
                     1 if !dcols.is_empty() => E::Col(*self.rng.pick(&dcols)),
@@ -2137,8 +2337,9 @@ impl<'a> Gen<'a> {
                 Ty::Int | Ty::BigInt => 'i',
                 Ty::Text => 't',
                 Ty::Bool => 'b',
+                Ty::UInt | Ty::BigUInt => 'i',
                 // shown only (like AVG)
-                Ty::Double => 'v',
+                Ty::Double | Ty::Float => 'v',
             };
             let nkeys = self.rng.below(3) as usize;
             for _ in 0..nkeys {
@@ -2157,7 +2358,7 @@ impl<'a> Gen<'a> {
             }
             self.tag(&format!("groupby.{}", nkeys));
             self.safe_arith = risky != 3;
-            let small = p != Profile::Boundary;
+            let small = !big_values(p);
             let naggs = if nkeys > 0 && self.rng.chance(1, 8) { 0 } else { 1 + self.rng.below(3) };
             if naggs == 0 {
                 self.tag("agg.none");
@@ -2270,10 +2471,14 @@ impl<'a> Gen<'a> {
             let n = self.rng.range(1, 3) as usize;
             let mut items = Vec::new();
             for _ in 0..n {
-                items.push(match self.rng.below(5) {
+                items.push(match self.rng.below(6) {
                     0 => {
                         self.tag("project.arith");
                         self.int_expr(&tys, p, 2)
+                    }
+                    5 => {
+                        self.tag("project.numfn");
+                        self.num_fn_expr(&tys, p)
                     }
                     1 => {
                         self.tag("project.pred");
@@ -2361,7 +2566,11 @@ impl<'a> Gen<'a> {
                         Ty::Int | Ty::BigInt => self.int_expr(&tys, p, 1),
                         Ty::Text => self.text_expr(&tys, p),
                         Ty::Bool => self.bool_expr(&tys, p, 0),
-                        Ty::Double => self.dbl_operand(&tys, p),
+                        Ty::Double | Ty::Float => self.dbl_operand(&tys, p),
+                        // a value the column can hold for certain; or (not in safe mode) any integer expression
+                        Ty::UInt | Ty::BigUInt => {
+                            if self.safe_arith { E::Lit(Val::Int(self.rng.range(0, 20) as i128)) } else { self.int_expr(&tys, p, 1) }
+                        }
                     };
                     sets.push((c, e));
                 }
@@ -2392,8 +2601,14 @@ fn expr_cols(e: &E, out: &mut Vec<usize>) {
     match e {
         E::Lit(_) => {}
         E::Col(i) => out.push(*i),
+        E::Coalesce(xs) => {
+            for x in xs {
+                expr_cols(x, out)
+            }
+        }
         E::Not(a) | E::Neg(a) | E::Pos(a) | E::IsNull(_, a) | E::StrFn(_, a) => expr_cols(a, out),
-        E::And(a, b) | E::Or(a, b) | E::Cmp(_, a, b) | E::Arith(_, a, b) | E::Like(_, a, b) | E::Concat(a, b) => {
+        E::And(a, b) | E::Or(a, b) | E::Cmp(_, a, b) | E::Arith(_, a, b) | E::Like(_, a, b) | E::Concat(a, b)
+        | E::NullIf(a, b) => {
             expr_cols(a, out);
             expr_cols(b, out)
         }
@@ -2437,7 +2652,7 @@ fn top_op(e: &E) -> &'static str {
         E::Between(..) => "between",
         E::InList(..) => "in",
         E::Case(..) => "case",
-        E::StrFn(..) | E::Concat(..) => "strfn",
+        E::StrFn(..) | E::Concat(..) | E::NullIf(..) | E::Coalesce(..) => "strfn",
     }
 }
 
@@ -2473,7 +2688,7 @@ fn predicate_tags(kind: &str, e: &E, from: &From, db: &[Table], tags: &mut BTree
 }
 
 fn gen_line(rng: &mut Rng, nstmts: usize) -> Case {
-    let mut g = Gen { rng, tags: BTreeSet::new(), safe_arith: false, no_case: false, pristine: true };
+    let mut g = Gen { rng, tags: BTreeSet::new(), safe_arith: false, no_case: false, pristine: true, no_unsigned: false };
     let (p, pname) = *g.rng.pick(&[
         (Profile::Small, "small"),
         (Profile::Small, "small"),
@@ -2482,6 +2697,7 @@ fn gen_line(rng: &mut Rng, nstmts: usize) -> Case {
         (Profile::Dups, "dups"),
         (Profile::Text, "text"),
         (Profile::Nulls, "nulls"),
+        (Profile::Wide, "wide"),
     ]);
     g.tag(&format!("pop.{}", pname));
     let ntables = g.rng.range(1, 3) as usize;
